@@ -5,6 +5,7 @@ manifest:
 	python3 tools/mkmanifest.py
 coq:
 	python3 tools/translate.py /repo coq
+	python3 tools/c2clite.py /repo coq
 	sh tools/mkcoqproject.sh
 	-$(MAKE) -C coq -k -j16
 models: coq
